@@ -114,7 +114,27 @@ pub fn check(c: &Case, ctx: &mut Ctx) -> Result<(), Failure> {
     let mut tie_poison = false; // OBV: an ambiguous close comparison poisons the running sum
     let mut vol_cum = 0.0f64;
     let (mut checked, mut skipped) = (0u64, 0u64);
+    let mut t0 = 0usize;
     for (i, bar0) in c.bars.iter().enumerate() {
+        // reset() of both twins at the same step (tele.rs, only in the `resets` stage): a used-and-reset instance
+        // is as good as a new one, so every relation restarts there — together with this check's own history
+        if crate::tele::due_reset() {
+            a.reset();
+            b.reset();
+            t0 = i;
+            big = 0.0;
+            big2 = 0.0;
+            hist.clear();
+            hb.clear();
+            highs.clear();
+            lows.clear();
+            cmax = 0.0;
+            tpbig = 0.0;
+            flowbig = 0.0;
+            tie_poison = false;
+            vol_cum = 0.0;
+            ctx.label("reset_of_both_twins");
+        }
         // mixed use of both paths on one instance (tele.rs): on some steps of a bar-fed case both twins get
         // next(close); the relation is then that of the one-price bar this stands for
         let sc_step = !scalar && k.scalar() && crate::tele::scalar_here();
@@ -124,7 +144,7 @@ pub fn check(c: &Case, ctx: &mut Ctx) -> Result<(), Failure> {
         // identity events (tele.rs) hit the instance fed the transformed stream
         crate::tele::step(&mut b, &c.cfg);
         let (oa, ob) = if scalar || sc_step { (a.next_scalar(bar.c), b.next_scalar(tb.c)) } else { (a.next_bar(bar), b.next_bar(&tb)) };
-        let t = i + 1;
+        let t = i + 1 - t0;
         big = big.max(if scalar { bar.c.abs() } else { bar.max_abs_price() });
         big2 = big2.max(if scalar { tb.c.abs() } else { tb.max_abs_price() });
         hist.push(bar.c);
@@ -377,6 +397,9 @@ pub fn run(g: &mut Global) {
     g.random("random", g.tier.pick(300000, 3000000), &|| strategy(None), &check);
     // identity events (tele.rs): at one or two steps the instance is replaced by its clone, by a used instance
     // (same or longer periods) that clone_from()s it, or by its serde round trip; nothing may change
+    // reset() of both twins mid-stream (with or without identity events): the stretch after it is in the same
+    // transformed unit as before, but whatever reset() forgot to clear was accumulated at the old level
+    g.random("resets", g.tier.pick(60000, 500000), &|| crate::tele::wrap_resets(strategy(None)), &|t: &crate::tele::TCase<Case>, ctx: &mut Ctx| crate::tele::check_wrapped(t, ctx, t.case.bars.len(), t.case.cfg.n(), check));
     g.random("events", g.tier.pick(100000, 800000), &|| crate::tele::wrap(strategy(None)), &|t: &crate::tele::TCase<Case>, ctx: &mut Ctx| crate::tele::check_wrapped(t, ctx, t.case.bars.len(), t.case.cfg.n(), check));
     if g.tier == Tier::Thorough {
         // every k in -40..=40 visited
